@@ -155,3 +155,36 @@ def carried_flag_irrelevant_bad(f, limit):
         if any(entry):
             (size,) = unpack('<I', entry)
         i += 1
+
+
+def length_checked_ok(f):
+    out = []
+    while True:
+        raw = f.read(4)
+        if len(raw) != 4:
+            raise EOFError("truncated")
+        n = int.from_bytes(raw, "little")
+        if n == 0:
+            break
+        out.append(n)
+    return out
+
+
+def indexed_read_undecided(f):
+    out = []
+    while True:
+        b = f.read(1)[0]  # IndexError at EOF: an implicit check this analysis does not model
+        if b == 0:
+            break
+        out.append(b)
+    return out
+
+
+def from_bytes_bad(f):
+    out = []
+    while True:
+        n = int.from_bytes(f.read(4), "little")  # b'' -> 0 is accepted silently ...
+        if n == 1:                               # ... and 0 does not leave
+            break
+        out.append(n)
+    return out
